@@ -95,3 +95,14 @@ Definition ev_dict {D} (run: sfield -> D -> res pv) (konst: sfield -> option pv)
   end.
 
 Definition str_mem (s: string) (l: list string) : bool := existsb (String.eqb s) l.
+
+(* ---- pack side (kernel K45b): the expression pack_named_tuple returns ---- *)
+Inductive nt_pack_code :=
+| NPList (ixs: list nt_idx)                        (* [p0(value[0]), p1(value[1]), ...] *)
+| NPDict (keys: list string) (ixs: list nt_idx).   (* {'a': p0(value[0]), 'b': p1(value[1]), ...} *)
+
+Definition run_pack_code (ev: nt_idx -> sfield -> res pv) (code: nt_pack_code) (fds: list sfield) : res pv :=
+  match code with
+  | NPList ixs => r <- run_call ev ixs fds ;; Ok (VList r)
+  | NPDict keys ixs => r <- run_call ev ixs fds ;; Ok (VDict (combine (map VStr keys) r))
+  end.
